@@ -1,6 +1,6 @@
 \* scenario generation: every scenario of the scope (initial states only), printed as JSON
-CONSTANTS WeightVecs = {1, 2, 3, 4, 5, 6, 7, 8, 9, 10, 11, 12}  FeatDiag = TRUE  NPods = 2  PodArchs = {1, 2, 3, 6, 7}
-CONSTANTS Feats = {"plain", "taint", "prefer", "limit", "limit16", "zoneA", "teamX", "min2", "notReady", "startup"}
+CONSTANTS WeightVecs = {1, 4, 6, 7, 9, 12}  FeatDiag = TRUE  NPods = 2  PodArchs = {1, 2, 3, 6, 7}
+CONSTANTS Feats = {"plain", "taint", "prefer", "limit", "limit16", "zoneA", "teamX", "min2", "archMin2", "notReady", "startup"}
 CONSTANTS Catalogs = {2}  DaemonSets = {2}  MaxTypesSet = {2}  Policies = {"Strict"}  Weak = ""
 SPECIFICATION GenSpec
 INVARIANTS GenPrint
